@@ -639,7 +639,7 @@ func (p *Program) Print() string {
 
 // Export produces the JSON object handed to TLC (and kept for replay).
 func (p *Program) Export() map[string]interface{} {
-	if p.Src == "" {
+	if p.Src == "" && len(p.Stmts) > 0 {
 		p.Print()
 	}
 	mods := make([]interface{}, 0)
